@@ -5,6 +5,7 @@
 package main
 
 import (
+	"bytes"
 	"encoding/json"
 	"flag"
 	"fmt"
@@ -468,13 +469,21 @@ func exerciseSet(w *vt.Writer, r *rand.Rand, route string, ks []ksEntry, h *keys
 		}
 		w.Emit(e)
 	}
-	for _, n := range []uint32{0, 1, 16, 17, uint32(r.Intn(70)), 64, 65} {
+	primNs := []uint32{0, 1, 16, 17, uint32(r.Intn(70)), 64, 65}
+	if route == "plan" {
+		primNs = []uint32{uint32(r.Intn(17)), 16, 65}
+	}
+	for _, n := range primNs {
 		sc("primary", func(n uint32) ([]byte, error, bool) { o, err := s.ComputePrimaryPRF(in, n); return o, err, true }, n)
 	}
 	for _, ke := range ks {
 		var id uint32
 		fmt.Sscanf(ke.ID, "%08x", &id)
-		for _, n := range []uint32{0, 16, uint32(r.Intn(40)), uint32(maxLen(ke.PRFCfg)), uint32(maxLen(ke.PRFCfg) + 1)} {
+		idNs := []uint32{0, 16, uint32(r.Intn(40)), uint32(maxLen(ke.PRFCfg)), uint32(maxLen(ke.PRFCfg) + 1)}
+		if route == "plan" {
+			idNs = []uint32{uint32(r.Intn(17)), uint32(maxLen(ke.PRFCfg) + 1)}
+		}
+		for _, n := range idNs {
 			sc(ke.ID, func(n uint32) ([]byte, error, bool) {
 				p, ok := s.PRFs[id]
 				if !ok {
@@ -484,6 +493,85 @@ func exerciseSet(w *vt.Writer, r *rand.Rand, route string, ks []ksEntry, h *keys
 				return o, err, true
 			}, n)
 		}
+	}
+}
+
+// shape is one TLC-enumerated keyset shape (spec/plan/Plan_KeysetShapes.tla).
+type shape struct {
+	Keys []struct {
+		ID      string `json:"id"`
+		Status  string `json:"status"`
+		Primary bool   `json:"primary"`
+		T       int    `json:"t"`
+	} `json:"keys"`
+}
+
+func readShapes(path string) []shape {
+	raw, err := os.ReadFile(path)
+	if err != nil {
+		vt.Fatal("read shapes: %v", err)
+	}
+	var out []shape
+	for _, line := range bytes.Split(raw, []byte("\n")) {
+		if len(bytes.TrimSpace(line)) == 0 {
+			continue
+		}
+		var sh shape
+		if err := json.Unmarshal(line, &sh); err != nil {
+			vt.Fatal("bad shape: %v", err)
+		}
+		out = append(out, sh)
+	}
+	return out
+}
+
+// planSets instantiates EVERY keyset shape TLC enumerated (status x key-type class x primary position, up to
+// MaxKeys keys) with real PRF keys and distinct ids (extreme values included) and exercises the resulting set.
+func planSets(w *vt.Writer, path string) {
+	r := vt.Rng(152)
+	for si, sh := range readShapes(path) {
+		perm := r.Perm(len(setIDs))
+		var ks []ksEntry
+		var ents []dpk.Ent
+		for i, k := range sh.Keys {
+			id := setIDs[perm[i]]
+			if (si+i)%4 == 0 {
+				id = r.Uint32()
+			}
+			var c dpk.PRFCfg
+			switch k.T {
+			case 1:
+				c = dpk.PRFCfg{Alg: "HMAC", Hash: hashes[(si+i)%5], Key: vt.Hex(vt.Bytes(r, 16+r.Intn(60)))}
+			case 2:
+				c = dpk.PRFCfg{Alg: "CMAC", Key: vt.Hex(vt.Bytes(r, 32))}
+			default:
+				c = dpk.PRFCfg{Alg: "HKDF", Hash: []string{"SHA256", "SHA512"}[(si+i)%2], Salt: vt.Hex(vt.Bytes(r, (si%3)*16)), Key: vt.Hex(vt.Bytes(r, 32+r.Intn(40)))}
+			}
+			ks = append(ks, ksEntry{vt.ID4(id), k.Status, k.Primary, c})
+		}
+		seen := map[string]bool{}
+		dup := false
+		for _, e := range ks {
+			dup = dup || seen[e.ID]
+			seen[e.ID] = true
+		}
+		if dup {
+			vt.Fatal("id collision while instantiating a shape")
+		}
+		for _, e := range ks {
+			k, err := dpk.PRFKey(e.PRFCfg)
+			if err != nil {
+				vt.Fatal("PRF key: %v", err)
+			}
+			var id uint32
+			fmt.Sscanf(e.ID, "%08x", &id)
+			ents = append(ents, dpk.Ent{ID: id, Status: e.Status, Primary: e.Primary, Key: k})
+		}
+		h, err := dpk.Handle(ents)
+		if err != nil {
+			vt.Fatal("keyset: %v", err)
+		}
+		exerciseSet(w, r, "plan", ks, h, si)
 	}
 }
 
@@ -760,6 +848,7 @@ func replay(path string, w *vt.Writer) {
 func main() {
 	out := flag.String("out", "", "trace file")
 	rp := flag.String("replay", "", "replay file")
+	shapes := flag.String("shapes", "", "keyset shapes enumerated by TLC (Plan_KeysetShapes)")
 	flag.Parse()
 	if *out == "" {
 		vt.Fatal("usage: c15 -out trace.ndjson [-replay file]")
@@ -774,6 +863,9 @@ func main() {
 	runPRF(w, full)
 	a := w.Count()
 	runSets(w, full)
+	if *shapes != "" {
+		planSets(w, *shapes)
+	}
 	b := w.Count()
 	runHKDF(w, full)
 	fmt.Printf("events=%d prf=%d sets=%d hkdf=%d\n", w.Count(), a, b-a, w.Count()-b)
